@@ -32,6 +32,7 @@ func runC02(c *core.Ctx) {
 	c.RuleDoc("R02.13", "OpenFile constructs a record only where the name was not found: the handle of an existing file wraps the stored record")
 	c.RuleDoc("R02.14", "the content grows by exactly the tested target minus its current length")
 	c.RuleDoc("R02.15", "positioned methods, Truncate, Stat and Chmod never store the handle's offset")
+	c.RuleDoc("R02.17", "a sequential read/write stores the offset on every path after its positioned call")
 	c.RuleDoc("R02.16", "write methods copy the caller's bytes, they never store the buffer")
 	c.RuleDoc("R02.12", "a mutation whose write-back fails is undone")
 	c.RuleDoc("R02.8", "a positioned write refuses a handle opened with O_APPEND")
@@ -53,6 +54,7 @@ func runC02(c *core.Ctx) {
 		}
 		r02GrowExact(c, p, fileT)
 		r02OffsetWriters(c, p, fileT)
+		r02SequentialAdvances(c, p, fileT)
 		r02NoAdopt(c, p, fileT, "R02.16")
 		r02SeekValidates(c, p, fileT)
 		r02FailedSaveRestores(c, p, fileT)
@@ -73,6 +75,7 @@ func runC02(c *core.Ctx) {
 	c.Floor("R02.14", 2)
 	c.Floor("R02.15", 5)
 	c.Floor("R02.16", 3)
+	c.Floor("R02.17", 2)
 }
 
 func blobFuncs(p *load.Program, names ...string) map[*ssa.Function]bool {
@@ -1146,6 +1149,20 @@ func r02OffsetWriters(c *core.Ctx, p *load.Program, fileT *types.Named) {
 	if n < 5 {
 		c.Hard("anchor: positioned methods of keyvalue.file (found %d)", n)
 	}
+	// a handle starts at offset 0 whatever its flags: no method of the file system itself positions a handle
+	if fsT := p.Named("keyvalue", "FS"); fsT != nil {
+		for _, fn := range methodList(p, fsT) {
+			if fn.Object() == nil || !fn.Object().Exported() {
+				continue
+			}
+			key := fname(fn) + "|keeps-offset"
+			if h := reach(fn, map[*ssa.Function]bool{}); h != nil {
+				c.Bad("R02.15", key, p.Pos(writes[h]), fmt.Sprintf("%s reaches a store to a handle's offset (in %s): os.File starts every handle at offset 0 — O_APPEND only redirects writes — so a read-write append handle must read the file from its start and Seek(0, SeekCurrent) must report 0 before the first write", fname(fn), fname(h)))
+			} else {
+				c.OK("R02.15", key, p.Pos(fn.Pos()), "no store to the offset field is reachable")
+			}
+		}
+	}
 }
 
 // ---- R02.16: written bytes are copied, the caller's blob is never adopted ----
@@ -1244,5 +1261,81 @@ func r02NoAdopt(c *core.Ctx, p *load.Program, fileT *types.Named, rule string) {
 	}
 	if n < 3 {
 		c.Hard("anchor: write methods of keyvalue.file taking a buffer (found %d)", n)
+	}
+}
+
+// r02SequentialAdvances (R02.17): a sequential method of the handle (Read, ReadBlob, Write, WriteBlob) hands the
+// handle's offset to its positioned sibling and then stores the offset again on EVERY path to a return — also on
+// the path where the sibling reported an error: io.EOF may come together with the last bytes, and bytes that were
+// delivered must be behind the offset (otherwise the next Read returns them again and a Write overwrites the start).
+func r02SequentialAdvances(c *core.Ctx, p *load.Program, fileT *types.Named) {
+	ms := methodsOf(p, fileT)
+	seek := ms["Seek"]
+	if seek == nil {
+		c.Hard("anchor: keyvalue.file.Seek")
+		return
+	}
+	var field *types.Var
+	ssax.Instrs(seek, func(ins ssa.Instruction) {
+		if st, ok := ins.(*ssa.Store); ok {
+			if fa, ok := st.Addr.(*ssa.FieldAddr); ok && fa.X == ssa.Value(recvParam(seek)) {
+				field = fieldVarOf(fa)
+			}
+		}
+	})
+	if field == nil {
+		c.Hard("anchor: the offset field Seek stores into")
+		return
+	}
+	n := 0
+	for _, name := range []string{"Read", "ReadBlob", "Write", "WriteBlob"} {
+		fn := ms[name]
+		if fn == nil || fn.Blocks == nil {
+			continue
+		}
+		// the call that receives the current offset
+		var call ssa.Instruction
+		var blk *ssa.BasicBlock
+		idx := 0
+		for _, b := range fn.Blocks {
+			for i, ins := range b.Instrs {
+				cl, ok := ins.(*ssa.Call)
+				if !ok || call != nil {
+					continue
+				}
+				for _, a := range cl.Call.Args {
+					if u, ok := a.(*ssa.UnOp); ok && u.Op == token.MUL {
+						if fa, ok := u.X.(*ssa.FieldAddr); ok && fieldVarOf(fa) == field {
+							call, blk, idx = ins, b, i
+						}
+					}
+				}
+			}
+		}
+		if call == nil {
+			continue // pure delegation to another sequential method (Write -> WriteBlob)
+		}
+		n++
+		key := typeKey(fileT) + "." + name + "|offset-stored-on-every-path"
+		bad := ""
+		ssax.EnumPaths(fn, blk, idx+1, ssax.NewPathState(), ssax.PathHooks{
+			Instr: func(ps *ssax.PathState, ins ssa.Instruction) {
+				if st, ok := ins.(*ssa.Store); ok {
+					if fa, ok := st.Addr.(*ssa.FieldAddr); ok && fieldVarOf(fa) == field {
+						ps.Counts["stored"] = 1
+					}
+				}
+			},
+			End: func(ps *ssax.PathState, last ssa.Instruction) {
+				if _, ok := last.(*ssa.Return); ok && ps.Counts["stored"] == 0 && bad == "" {
+					bad = p.Pos(last.Pos())
+				}
+			},
+		})
+		c.Check(bad == "", "R02.17", key, p.Pos(fn.Pos()), "every return after the positioned call follows a store of the offset",
+			fmt.Sprintf("%s.%s returns at %s without having stored the handle's offset after the positioned call: when that call delivers bytes together with an error (the last bytes with io.EOF) the offset stays in front of them — Seek(0, SeekCurrent) reports the old position, the next Read returns the same bytes again, a Write overwrites the start of the file", typeKey(fileT), name, bad))
+	}
+	if n < 2 {
+		c.Hard("anchor: sequential methods of keyvalue.file that pass the offset on (found %d)", n)
 	}
 }
